@@ -68,7 +68,7 @@ def wire_trace_validate(chk, name, trace_path, what, pid_filter=None):
         if ev.get("ev") == "Enc":
             key = f"trace:Enc:{ev.get('kind')}:{ev.get('res')}"
         elif ev.get("ev") == "Dec":
-            key = f"trace:Dec:{ev.get('res')}:type{(ev.get('buf') or [0, 0])[1] if len(ev.get('buf') or []) > 1 else 'none'}:{ev.get('tag')}"
+            key = f"trace:Dec:{ev.get('res')}:type{(ev.get('buf') or [0, 0])[1] if len(ev.get('buf') or []) > 1 else 'none'}:{ev.get('tag')}" + ("" if ev.get("ctx_ok", True) else ":depends-on-following-bytes")
         else:
             key = f"trace:{ev.get('ev')}:{ev.get('mode')}:{norm_key(json.dumps(ev.get('seen')))}"
         chk.violation(key, f"{what}: event {idx} is not allowed by the specification: {json.dumps(ev)[:600]}",
